@@ -361,6 +361,10 @@ func (c *Config) validateCircuitBreaker() error {
 		if c.CircuitBreaker.IntervalSeconds <= 0 {
 			return fmt.Errorf("circuit breaker interval must be positive (got %d)", c.CircuitBreaker.IntervalSeconds)
 		}
+		// 0 selects the default; the balancer converts the value to an unsigned count
+		if c.CircuitBreaker.MaxRequests < 0 {
+			return fmt.Errorf("circuit breaker max requests must be non-negative (got %d)", c.CircuitBreaker.MaxRequests)
+		}
 	}
 	return nil
 }
